@@ -15,7 +15,11 @@ _SESS_NOTE = "trusted: Lean kernel, Model/Observer.lean + Model/Session.lean (va
 # C01 speaks about the stored SEQUENCE NUMBER relative to what was settled: tuples are reduced to (seq)
 _P_SAVE = {"parts": ["written", "openreq", "savecall", "saveerr", "nowrite", "flag="], "tuples": "seq"}
 PROPS["C01"] = {
-    "streams": ["sess-crash", "sess-base"], "audit": "C01.lean", "shrink": True, "clauses": ["C01"],
+    "streams": ["sess-crash", "sess-base", "c02w"], "audit": "C01.lean", "shrink": True,
+    # what is PRESENT IN THE METADATA STORE also depends on the back ends (couchbase xattr documents, file): the on-the-wire
+    # checkpoint stream is judged by its save-then-load clauses (a document stored under another vBucket's key, or a corrupt file
+    # silently treated as 'no checkpoint', puts a position into the store that was never settled for that vBucket)
+    "clauses": ["C01", "C02.save-then-load", "C02.corrupt-as-coded", "C02.roundtrip-lossless", "C05.successful-save-skipped-writes"],
     "compare_parts": {"sess-crash": _P_SAVE, "sess-base": _P_SAVE},
     "rule": _SESS_RULE, "assumptions": _SESS_ASSUME + ["acknowledgement is cumulative per vBucket (acking seq s settles every delivered event <= s)"],
     "design_ref": "DESIGN.md §7 C01, §6 F3",
@@ -44,7 +48,8 @@ PROPS["C04"] = {
 }
 _P_C05 = {"parts": ["written", "savecall", "saveerr", "nowrite", "flag=", "pos"], "tuples": "seq"}
 PROPS["C05"] = {
-    "streams": ["sess-save", "sess-crash"], "audit": "C05.lean", "shrink": True, "clauses": ["C05"],
+    "streams": ["sess-save", "sess-crash", "c02w"], "audit": "C05.lean", "shrink": True,
+    "clauses": ["C05", "C02.save-then-load", "C05.successful-save-skipped-writes"],
     "compare_parts": {"sess-save": _P_C05, "sess-crash": _P_C05},
     "rule": _SESS_RULE, "assumptions": _SESS_ASSUME + ["a save 'completes successfully' also on the skip path (flag down); 'rejects or times out' = the store returns an error"],
     "design_ref": "DESIGN.md §7 C05, §6 F1 F2",
